@@ -2,7 +2,8 @@
 
 proof   : Props/C28.v — delivered NodeID = the node registered for the handle (every schedule, drops allowed);
           C28_statement refuted by a consumer-side drop; C28_partial_no_drop: convergence for every schedule without drops.
-tie     : 3 real writer clients (one writer per node, increasing unique values) + a NodeMonitor on the real server with
+tie     : burst runs (200 monitored nodes added in one call, then every node updated back to back on the server side,
+          three rounds) and 3 real writer clients (one writer per node, increasing unique values) + a NodeMonitor with
           nodes added, removed and re-added while the writers run; after quiescence the values are read back.  The
           observable consequences of the model (Model/MonitorObs.v: right node, per-node order, silence after removal,
           convergence) are evaluated inside Coq on each recorded run.
@@ -93,6 +94,10 @@ def run(ctx):
         seed = ctx.seed
     rc, out = vf.sh([h, "-seed", str(seed), "-n", str(runs), "-ops", str(wpn), "c28"], timeout=1200, env=vf.GOENV)
     obs = [json.loads(l) for l in out.splitlines() if l.startswith('{"kind":"c28"')]
+    for o in obs:
+        for k in ("removed_at", "added_at", "monitored", "deliveries", "final"):
+            if o.get(k) is None:
+                o[k] = []
     if rc != 0 or len(obs) != runs or any(o.get("err") for o in obs):
         ctx.finding("harness-crash", "C28 harness failed: " + "; ".join(str(o.get("err")) for o in obs if o.get("err"))[:300],
                     {"output": out[-3000:], "seed": seed, "runs": runs})
